@@ -6,7 +6,8 @@ Events == ndJsonDeserialize(IOEnv.TRACE_FILE)
 VARIABLE i
 Init == i = 1
 Verdict(e) == [tid |-> e.tid, fault |-> ParamFault(e.inline, e.param, e.vals, e.d),
-               residue |-> Residue(e.param, {e.marked[k] : k \in DOMAIN e.marked})]
+               residue |-> Residue(e.param, {e.marked[k] : k \in DOMAIN e.marked})
+                           \cup {"exempt-constant-parameterised:" \o x : x \in ExemptLost(e.inline, e.param, {e.exempt[k] : k \in DOMAIN e.exempt})}]
 Next == /\ i <= Len(Events)
         /\ LET v == Verdict(Events[i]) IN IF v.fault = "" /\ v.residue = {} THEN TRUE ELSE PrintT("V " \o ToJson(v))
         /\ i' = i + 1
